@@ -38,6 +38,23 @@ CHECKS = {
    technique="TLC safety (StopsReading, BreakEndsReading) and liveness (Terminates under weak fairness, unbounded source) on the stage machine + real runs on unbounded inputs (endless stdin, named pipe as file operand) validated against the read bound (Trace_Pipe kind=stop)",
    text="TLC shows that once skip+take rows exist a streaming machine never pulls another value and that, with an unbounded source and weak fairness, it reaches done; the deviations 'select/split swallow Break' and 'split answers with the last element's decision' must yield counterexamples (a lasso for liveness). Real runs on endless inputs (stdin and a FIFO) for T in 0..5, S in 0..3 over streaming pipelines must return and may not have been handed more than 64 KiB (FIFO: 144 KiB) past the value completing the rows; the rows must equal the reference.",
    note='Trusted: the Rust harness recording bytes; TLC; the strict RFC 8259 reader of the specification for reading rows back. Option expressions are drawn from the core fragment (extractors, literals, :variables). Exhaustive only inside the bounded model; beyond it seeded sampling.' + " A watchdog of 30 s decides 'did not return'.", design="DESIGN.md section 6 C14"),
+
+ "C02": dict(
+   technique="TLC model checking of JsonPrinter.tla against the strict RFC 8259 reader and JsonLexer (MC_C02: RoundTrip, WellFormed, SameButWs, ConsiseNoWs, OneLineNoLF, PrettyShape, Fixpoint) + trace validation of real output in all three styles and of the second pass (Trace_C02)",
+   text="TLC shows on the specification that for every value of a universe built around the special code points (quote, backslash, slash, C0 controls, DEL, U+2028/9, U+FFFF, astral) and number shapes (+-2^63, 2^64-1, 5e-324, 1.797e308, 2^53+1), every style and both --utf8-strings settings the printed row is read back by the strict reader as the value, the styles differ only in whitespace with the stated shapes, and jawk's own parser reads the row back to the same bytes; the five-hex-digit escape of scalars above U+FFFF (known finding) must produce the RoundTrip counterexample, the surrogate-pair variant must not. Real runs (250 / 30 000 streams x 3 styles x 2 passes, separators LF, '---' LF, ';', pass-through and arithmetic results, always including the numbers at the edges of the integer and double ranges) are validated by TLC on the recorded bytes.",
+   note="Trusted: the Rust harness; TLC; decimal->nearest-double table for numbers beyond 15 digits (python float). Value equality only for pass-through rows (the value of an arithmetic result is not known independently: well-formedness, style rules and fixpoint only).", design="DESIGN.md section 6 C02"),
+ "C05": dict(
+   technique="TLC totality/progress model of the lexer over all byte strings up to a bound (MC_Lexer) + exhaustive byte-string sweep and generated/enumerated expressions run through jawk::go under catch_unwind and a watchdog",
+   text="TLC evaluates the lexer automaton in every reachable (state, byte) pair for all byte strings of length <= 5 (thorough 6) over a 26-byte alphabet: no missing case, no non-terminating re-dispatch, events never outnumber bytes (the read loop cannot spin), end of input reaches done. The real code is run on every byte string of length <= 4 (thorough 5) under ignore and <= 3 (4) under the other policies, on random byte strings up to 4 KiB, on every pure function applied to every tuple of a 37-value boundary universe (arity 1-2; 14 values for arity 3), on random expressions of depth <= 4 in every option position, and with multi-byte characters at every byte offset 0..40 of expression texts and string arguments; a panic, abort or watchdog timeout is a violation.",
+   note="Trusted: catch_unwind / process death detection and the 20 s watchdog of the harness. Resource exhaustion excluded as the property says (range <= 30, no product of three ranges, fresh macro names).", design="DESIGN.md section 6 C05"),
+ "C06": dict(
+   technique="TLC model checking of the read loop (JsonLexer x --on-error dispatch) on clean streams with garbage at the gaps (MC_C06: NoiseInvisible, Routed, PanicStops, CleanSilent) + replay of model behaviours + trace validation of noisy real runs next to their noise-free twins (Trace_C06)",
+   text="TLC shows on the specification that garbage tokens at any gap leave the processed values unchanged, are reported at least once per region on the chosen stream only (never under ignore), make panic fail at the first malformed byte after exactly the preceding values, and that clean streams are silent - for all value sequences <= 2 over 5 values, 10 gap fillings per gap and the 4 policies; a form-feed-is-blank deviation must yield the counterexample. Simulated model behaviours and 300 (50 000) random noisy streams x policies x pipelines (plain, select, sort, merge) are run next to their noise-free twins and validated by TLC.",
+   note="Trusted: the Rust harness; TLC. Garbage tokens are whitespace-delimited and made of bytes that cannot start a value, as the property says.", design="DESIGN.md section 6 C06"),
+ "C15": dict(
+   technique="TLC model checking of TextPrinter.tla against an RFC 4180 reader written from the RFC (MC_C15: CsvReadBack, TextFields) + trace validation of real csv/text output: the TLA+ csv reader is run on the recorded bytes (Trace_C15)",
+   text="TLC shows that the csv output of every row of <= 2 selections over all value types, absent, and strings over quote, comma, CR, LF, TAB, blank, non-ASCII is read back by the RFC 4180 reader field for field, and that text rows have N-1 separators; real runs (1..5 selections, 0..6 rows, all text options incl. several escape sequences, prefixes, keywords, headers, missing-value keyword, row separators) are validated by running that reader on the recorded stdout.",
+   note="Trusted: the Rust harness; TLC. In text mode separators are chosen not to occur in the data.", design="DESIGN.md section 6 C15"),
 }
 def main():
     checks = []
